@@ -213,9 +213,10 @@ pub fn check_poison_view(t: &Target<'_>, ti: usize, api: &str, slots: &[(u32, Ve
 
 /// Every Poisonable flag covered by a hold on the target, with the culprit key used if a panic
 /// during that hold fails to poison it: `<call>|<position of the flag relative to the target>`.
-pub fn flags_of(t: &Target<'_>, ti: usize, w: &str) -> Vec<(u32, String)> {
+pub fn flags_of(t: &Target<'_>, ti: usize, w: &str) -> Vec<(u32, String, Vec<u32>)> {
 	let mut v: Vec<(u32, usize)> = vec![];
-	for (_, fl) in flag_paths(t, ti) {
+	let paths = flag_paths(t, ti);
+	for (_, fl) in &paths {
 		for (d, f) in fl.iter().enumerate() {
 			v.push((*f, d));
 		}
@@ -225,7 +226,15 @@ pub fn flags_of(t: &Target<'_>, ti: usize, w: &str) -> Vec<(u32, String)> {
 	}
 	v.sort();
 	v.dedup_by_key(|x| x.0);
-	v.into_iter().map(|(f, d)| (f, format!("{}|{}", rt::what_key(w), flag_class(t, ti, f, d)))).collect()
+	v.into_iter()
+		.map(|(f, d)| {
+			let mut leaves: Vec<u32> = paths.iter().filter(|(_, fl)| fl.contains(&f)).map(|(l, _)| *l).collect();
+			if Some(f) == target_flag(&t.spec, ti) {
+				leaves = t.leaves.clone();
+			}
+			(f, format!("{}|{}", rt::what_key(w), flag_class(t, ti, f, d)), leaves)
+		})
+		.collect()
 }
 
 fn check_acquired(t: &Target<'_>, write: bool, w: &str) {
